@@ -183,6 +183,9 @@ func forall(lo, hi int, f func(int) bool) bool {
 //@   trusted
 //@   ensures result1 == ghostIsSnap(filePath) && (result1 ==> result0 == ghostSnapID(filePath) && filePath != "")
 
+// (loop 1 collects the checkpoints a publication makes obsolete - their files are removed and
+// the operators are told to retain only the new one: only a publication that is NOT superseded
+// may do that.)
 // ---- publication (C13): finishing a checkpoint never loses the newest completed
 // one, even if a later checkpoint was published while this one was still being
 // written. old(...) of the guarded state is its value when stateMu was acquired.
@@ -198,6 +201,8 @@ func forall(lo, hi int, f func(int) bool) bool {
 //@   ensures result1 == nil ==> exists(0, len(s.state.completedSnapshots), 0, func(k int) bool { return s.state.completedSnapshots[k].id >= snap.id })
 //@   loop 0:
 //@     invariant superseded == exists(0, idx_, func(j int) bool { return s.state.completedSnapshots[j].id > snap.id })
+//@   loop 1:
+//@     invariant !superseded
 
 // ---- savepoint artifacts (C14). Ghost model of a storage location for this purpose: the
 // log of successful Copy calls. A savepoint is self-contained when every file the restore
